@@ -151,6 +151,10 @@ func (g *Gateway) subscriptionHandler(w http.ResponseWriter, r *http.Request) {
 		// Let event handlers deal with starting operations
 		case requests.SubStart:
 			request := subMsg.Payload
+			// a start message has to carry the operation
+			if request == nil {
+				return
+			}
 			request.Original = r
 
 			query, qerr := gqlparser.LoadQuery(g.schema, request.Query)
@@ -181,6 +185,8 @@ func (g *Gateway) subscriptionHandler(w http.ResponseWriter, r *http.Request) {
 				return
 			}
 
+			// an id can be started again: the running subscription it replaces is stopped
+			subDict.Clean(subMsg.ID)
 			subDict[subMsg.ID] = subEntry
 
 			go subEntry.Listen(conn)
